@@ -29,7 +29,8 @@ from lib import *
 
 RUNS = {
     "quick": ["MC_KernelPort_quick.cfg", "MC_KernelPort_quick_beh.cfg"],
-    "thorough": ["MC_KernelPort_thorough.cfg", "MC_KernelPort_thorough_beh.cfg", "MC_KernelPort_quick.cfg", "MC_KernelPort_quick_beh.cfg"],
+    "thorough": ["MC_KernelPort_thorough.cfg", "MC_KernelPort_thorough_b.cfg", "MC_KernelPort_thorough_beh.cfg", "MC_KernelPort_quick.cfg",
+                 "MC_KernelPort_quick_beh.cfg"],
 }
 MUTANTS = ["MC_KernelPort_mut_dup.cfg", "MC_KernelPort_mut_limit.cfg", "MC_KernelPort_mut_elig.cfg"]
 PROCS = 4
@@ -83,46 +84,59 @@ NEED_KINDS = ["dispatch/accepted", "dispatch/duplicate", "dispatch/INVALID_INTEN
 
 
 def run_leg(ck, binp, tier, replay=None):
-    runs = []
     spec_mutants = {}
-    if replay:
-        obj = json.load(open(replay))["case"]
-        if obj.get("leg") != "kernel":
+    only = os.environ.get("VERIF_KPORT_ONLY")                # debugging aid: run a single cfg of the tier
+
+    def mc(cfg):
+        return cfg, tlc("MC_KernelPort", cfg, workers=8 if tier == "thorough" else 4, timeout=3600, tags=("CASE",),
+                        out_name=f"kport_{cfg.replace('.cfg', '')}", heap="10g")
+
+    def exported(cfg, res):
+        ck.add_tlc(res)
+        if res.violation:
+            ck.violation(f"{P}spec:{cfg}:{res.violation}", "TLC invariant / action property violated on the kernel-port model:\n" + res.error_text[:3000],
+                         {"leg": "kernel_spec", "cfg": cfg, "invariant": res.violation, "trace": res.error_text[:20000]})
+            return None
+        if not res.lines:
+            raise ToolError(f"{cfg}: nothing exported")
+        cases = [c for _, c in res.lines]
+        res.lines = []
+        return cases
+
+    def all_runs():
+        """(cfg, cases) one at a time: the thorough exports are several hundred MB each"""
+        if replay:
+            obj = json.load(open(replay))["case"]
+            if obj.get("leg") == "kernel" and obj.get("cases"):
+                yield obj.get("cfg", "replay"), obj["cases"]
             return
-        runs.append((obj.get("cfg", "replay"), obj["cases"]))
-    else:
-        only = os.environ.get("VERIF_KPORT_ONLY")            # debugging aid: run a single cfg of the tier
         cfgs = [c for c in RUNS[tier] if not only or only in c]
-
-        def mc(cfg):
-            return cfg, tlc("MC_KernelPort", cfg, workers=8 if tier == "thorough" else 4, timeout=3600, tags=("CASE",),
-                            out_name=f"kport_{cfg.replace('.cfg', '')}", heap="8g")
-
-        with concurrent.futures.ThreadPoolExecutor(max_workers=2) as ex:
-            results = list(ex.map(mc, cfgs))
+        if tier == "quick":
+            with concurrent.futures.ThreadPoolExecutor(max_workers=2) as ex:
+                results = list(ex.map(mc, cfgs))
+        else:
+            results = (mc(c) for c in cfgs)
         for cfg, res in results:
-            ck.add_tlc(res)
-            if res.violation:
-                ck.violation(f"{P}spec:{cfg}:{res.violation}", "TLC invariant / action property violated on the kernel-port model:\n" + res.error_text[:3000],
-                             {"leg": "kernel_spec", "cfg": cfg, "invariant": res.violation, "trace": res.error_text[:20000]})
-                continue
-            if not res.lines:
-                raise ToolError(f"{cfg}: nothing exported")
-            runs.append((cfg, [c for _, c in res.lines]))
-            res.lines = []
-        if tier == "thorough" and not only:
-            for cfg in MUTANTS:
-                res = tlc("MC_KernelPort", cfg, workers=4, timeout=900, tags=("CASE",), out_name=f"kport_{cfg.replace('.cfg', '')}")
-                spec_mutants[cfg] = res.violation
-                if not res.violation:
-                    raise ToolError(f"the model mutant {cfg} satisfies every law of KernelPort.tla: the properties are vacuous")
+            cases = exported(cfg, res)
+            if cases is not None:
+                yield cfg, cases
+
+    if replay and json.load(open(replay))["case"].get("leg") != "kernel":
+        return
+    if not replay and tier == "thorough" and not only:
+        for cfg in MUTANTS:
+            res = tlc("MC_KernelPort", cfg, workers=4, timeout=900, tags=("CASE",), out_name=f"kport_{cfg.replace('.cfg', '')}")
+            spec_mutants[cfg] = res.violation
+            if not res.violation:
+                raise ToolError(f"the model mutant {cfg} satisfies every law of KernelPort.tla: the properties are vacuous")
 
     total = calls = nontrivial = drift = surface_cases = surface_calls = 0
     stats, kinds, seen_keys = {}, {}, {}
     statuses = set()
+    hangs = []
     fwd, bwd, members = {}, {}, {}          # MR: batch-sequence key -> (commit, root) ; commit -> key
     orders = {}                              # committed batch sequence -> distinct dispatch sequences that produced it
-    for cfg, cases in runs:
+    for cfg, cases in all_runs():
         tag = f"kport_{cfg.replace('.cfg', '')}"
         results = split_run(binp, "kport", tag, cases)
         for c, r in zip(cases, results):
@@ -131,6 +145,11 @@ def run_leg(ck, binp, tier, replay=None):
             slim = {"leg": "kernel", "cfg": cfg, "cases": [c]}
             if r["verdict"] == "tool_error":
                 raise ToolError(f"kport harness: {r.get('detail')}")
+            if r["verdict"] in ("hang", "skipped"):
+                # a port call that never returned although the model says it does: not a C08/C09 breach by itself;
+                # reported as tool trouble below unless the same run also found real breaches
+                hangs.append({"cfg": cfg, "verdict": r["verdict"], "call": r.get("step"), "calls": [x["op"] for x in c["calls"]]})
+                continue
             if r["verdict"] == "violation":
                 key = f"{P}{r['kind']}"
                 seen_keys[key] = seen_keys.get(key, 0) + 1
@@ -176,6 +195,9 @@ def run_leg(ck, binp, tier, replay=None):
             for c, r in zip(sc, sres):
                 if r["verdict"] == "tool_error":
                     raise ToolError(f"kport-surface harness: {r.get('detail')}")
+                if r["verdict"] in ("hang", "skipped"):
+                    hangs.append({"cfg": cfg, "verdict": r["verdict"], "surface": True, "call": r.get("step"), "calls": [x["op"] for x in c["calls"]]})
+                    continue
                 if r["verdict"] == "violation":
                     key = f"{P}{r['kind']}"
                     seen_keys[key] = seen_keys.get(key, 0) + 1
@@ -209,6 +231,11 @@ def run_leg(ck, binp, tier, replay=None):
                          {"leg": "kernel", "cfg": ws[0][1]["cfg"], "relation": "history", "hash": commit, "witnesses": [w for _, w in ws], "cases": []})
     max_orders = max((len(v) for v in orders.values()), default=0)
 
+    if hangs:
+        first = [h for h in hangs if h["verdict"] == "hang"][:2]
+        if not seen_keys:
+            raise ToolError(f"kport: {len(hangs)} case(s) not completed because a port call did not return: {json.dumps(first)[:1500]}")
+        ck.notes.append({"kernel_port_calls_that_did_not_return": len(hangs), "first": first})
     # ---- vacuity guards (clean runs only)
     if not replay and not seen_keys and not os.environ.get("VERIF_KPORT_ONLY"):
         if total == 0 or stats.get("commits", 0) == 0 or stats.get("duplicates", 0) == 0 or stats.get("duplicates_after_commit", 0) == 0:
